@@ -178,6 +178,9 @@ package align
 //@   ensures filled(a) && nogap1(a) && nogap2(a) && bufs(a.seq1ali, a.seq2ali, a.alistr)
 //@   ensures a.maxi == old(a.maxi) && a.maxj == old(a.maxj)
 // the trace-back stops on the border or on the first cell that is not positive (Smith-Waterman mode)
+// anchored mode (the trace-back only stops on the border, so its last move is never a vertical gap): the first returned
+// column holds a residue of the second sequence (the rows are returned reversed: the last emitted column comes first)
+//@   ensures a.algo == ALIGN_ALGO_ATG ==> a.seq2ali[0] != '-'
 //@   ensures a.algo != ALIGN_ALGO_ATG ==> a.start1 == 0 || a.start2 == 0 || isninf(a.matrix[a.start1-1][a.start2-1]) || (isfin(a.matrix[a.start1-1][a.start2-1]) && fin(a.matrix[a.start1-1][a.start2-1]) <= 0.0)
 //@   modifies a.end1, a.end2, a.start1, a.start2, a.length, a.nbgaps, a.nbmatches, a.nbmismatches, a.seq1ali, a.seq2ali, a.alistr
 //@   loop 1
@@ -186,6 +189,8 @@ package align
 //@     invariant cnt(a, len(seq1), i, j, entry(a.nbmatches), entry(a.nbmismatches), entry(a.nbgaps), entry(a.length))
 //@     invariant colsok(seq1, seq2, len(seq1))
 //@     invariant len(seq1) == 0 ==> i == a.end1 && j == a.end2
+// a vertical gap never moves a cursor off the matrix: when the last emitted column has a gap in the second row, both cursors are inside
+//@     invariant len(seq2) > 0 && seq2[len(seq2)-1] == '-' ==> i >= 0 && j >= 0
 //@     decreases i + j + 2
 //@   loop 2
 //@     invariant 0 <= ngaps && ngaps < i
@@ -211,5 +216,6 @@ package align
 //@     invariant len(seq1) == entry(len(seq1)) + g
 //@     invariant a.nbgaps == entry(a.nbgaps) + g && a.length == entry(a.length) + g
 //@     invariant colsok(seq1, seq2, len(seq1))
+//@     invariant g > 0 ==> seq2[len(seq2)-1] != '-'
 //@     invariant old(c9b_rec(a)) && fin(a.matrix[i][entry(j)]) > 0.0 ==> fin(a.matrix[i][entry(j)]) == fin(a.matrix[i][entry(j)-ngaps]) + fin(a.gapopen) + real(ngaps-1) * fin(a.gapextend)
 //@     decreases ngaps - g
